@@ -76,6 +76,14 @@ fn make_item(rng: &mut Rng, i: u64) -> Option<Item> {
         0 | 1 => {
             // VP8L: colour type decides the stream's own alpha bit
             let (data, ct, ab) = if i % 4 == 0 { (rgba.clone(), image_webp::ColorType::Rgba8, true) } else { (drop_alpha(&rgba), image_webp::ColorType::Rgb8, false) };
+            if (i / 4) % 3 == 1 {
+                // a grammar-generated stream (all transforms, colour cache, meta codes, backward
+                // references, cache hits on unwritten slots): its pixels come from libwebp
+                let (st, _) = crate::vp8lgen::stream(rng, w, h);
+                let ab = (st[4] >> 4) & 1 == 1;
+                let (_, _, px) = crate::oracle::decode_rgba(&riff(&chunk(b"VP8L", &st)))?;
+                return Some(Item { payload: Payload::Lossless(st), w, h, model: format!("lossless {} {}", ab as u8, hex(&px)), kind: format!("VP8L_generated_alphabit{}", ab as u8) });
+            }
             let s = hk::enc_frame(&data, w, h, ct, rng.chance(1, 2)).ok()?;
             let mut px = vec![0u8; (w * h * 4) as usize];
             hk::vp8l_decode(Cursor::new(&s[..]), w, h, false, &mut px).ok()?;
